@@ -151,3 +151,10 @@ Theorem C13_signing_key_agreement_shared_model : forall alg c s certs cert,
                        Metadata.published Metadata.use_signing ed = [base64_encode cert]).
 Proof. exact P_Keys.signing_key_agrees_with_reported_and_published. Qed.
 Print Assumptions C13_signing_key_agreement_shared_model.
+
+(* ---- which key signs: getSignerCert / getSigningCert as translated from /repo's saml.go on this run ---- *)
+From V Require Import Keys GenPrelude GenFuncs P_GenKeys.
+Theorem C13_source_signer_selection_is_the_model : forall c now,
+  G_getSignerCert c now = PVal (get_signer_cert c) /\ G_getSigningCert c now = PVal (get_signing_cert c).
+Proof. intros c now. exact (conj (G_getSignerCert_eq c now) (G_getSigningCert_eq c now)). Qed.
+Print Assumptions C13_source_signer_selection_is_the_model.
